@@ -15,4 +15,6 @@ pub mod c13;
 pub mod c15;
 pub mod c15_readbuf;
 #[cfg(kani)]
+pub mod c14;
+#[cfg(kani)]
 pub mod c16;
